@@ -1,16 +1,38 @@
 #!/usr/bin/env python3
-"""Prints the markdown table 'which checks catch which seeded changes' from seeded/*/meta.json."""
-import json, os, glob
+"""Regenerates DESIGN.md section B.9 (which checks catch which seeded changes) from seeded/*/meta.json (written by tools/seed_matrix.py)."""
+import json, os, glob, re, sys
+V = "/verif"
 rows = []
-for d in sorted(glob.glob('/verif/seeded/*')):
-    m = json.load(open(os.path.join(d, 'meta.json')))
+for d in sorted(glob.glob(V + "/seeded/*")):
+    mp = os.path.join(d, "meta.json")
+    if not os.path.isfile(mp): continue
+    m = json.load(open(mp))
     name = os.path.basename(d)
-    patch = open(os.path.join(d, 'patch.diff')).read()
-    files = sorted({l.split(' b/')[-1].strip() for l in patch.splitlines() if l.startswith('diff --git')})
-    det = m.get('detected_by')
-    ran = m.get('checks_run_against_it', [])
-    rows.append((name, ", ".join(files), "not run yet" if det is None else (", ".join(det) if det else "missed"), "; ".join("%s%s" % (r['check'], (":" + r['only']) if r.get('only') else "") for r in ran)))
-print("| seeded change | file(s) | caught by (quick tier unless noted) | checks run against it |")
-print("|---|---|---|---|")
-for r in rows:
-    print("| %s | %s | %s | %s |" % r)
+    patch = open(os.path.join(d, "patch.diff")).read()
+    files = sorted({l.split(" b/")[-1].strip() for l in patch.splitlines() if l.startswith("diff --git")})
+    funcs = []
+    for l in patch.splitlines():
+        mm = re.match(r"^@@.*@@ (\w+)", l)
+        if mm and mm.group(1) not in funcs: funcs.append(mm.group(1))
+    det = m.get("detected_by")
+    ran = m.get("checks_run_against_it", [])
+    tier = m.get("detected_tier", "quick")
+    if det is None: res = "not run"
+    elif det: res = "**caught** (%s): %s" % (tier, "; ".join(det))
+    else: res = "missed (quick tier: %s)" % ", ".join("%s%s" % (r["check"], (":" + r["only"]) if r.get("only") else "") for r in ran)
+    rows.append((name, m.get("property", "?"), ", ".join(f.replace("src/", "") for f in files) + (" (" + ", ".join(funcs[:2]) + ")" if funcs else ""), res))
+out = ["| seeded change | property | site | result |", "|---|---|---|---|"]
+for r in rows: out.append("| %s | %s | %s | %s |" % r)
+agent = [r for r in rows if not r[0].startswith("R_")]
+rev = [r for r in rows if r[0].startswith("R_")]
+c = lambda rs: sum(1 for r in rs if r[3].startswith("**caught"))
+summary = "Sub-agent changes caught: %d of %d; reverts of the fix commits caught: %d of %d." % (c(agent), len(agent), c(rev), len(rev))
+text = "\n".join(out)
+if "--print" in sys.argv:
+    print(summary); print(text); sys.exit(0)
+p = os.path.join(V, "DESIGN.md"); s = open(p).read()
+a, b = "<!-- CATCH-TABLE-BEGIN -->", "<!-- CATCH-TABLE-END -->"
+if a in s:
+    s = s[:s.index(a) + len(a)] + "\n" + summary + "\n\n" + text + "\n" + s[s.index(b):]
+    open(p, "w").write(s)
+print(summary)
